@@ -272,7 +272,28 @@ def _is_full(sp, n):
 
 
 def grid_fancy_get(interp, st, g, idx, node):
-    raise Outside("fancy / mask indexing read of grid", node)
+    """a[i0, i1, ...] with one integer index array per dimension (all 1-d, same length): out[k] = a[i0[k], i1[k], ...]"""
+    M = _M()
+    if len(idx) != g.rank or not all(isinstance(x, Grid) and x.rank == 1 and x.kind == "int" for x in idx):
+        raise Outside("fancy / mask indexing read of grid outside (one 1-d integer index array per dimension)", node)
+    n = idx[0].dims[0]
+    for x in idx[1:]:
+        interp.ctx.oblige(st, M.s_cmp(ast.Eq(), x.dims[0], n), f"index-arrays-same-length@{getattr(node,'lineno','?')}", node, "shape")
+    k = z3.Int(V.fresh_name("k"))
+    conds = []
+    for d, x in enumerate(idx):
+        j, ok = M.norm_index(x.select([k]), g.dims[d])
+        conds.append(ok)
+    rng = z3.And(k >= 0, k < to_z3(n))
+    goal = z3.ForAll([k], z3.Implies(rng, to_z3(b_and(*conds))))
+    if not interp.ctx.options.get("spec_mode"):
+        interp.ctx.oblige(st, goal, f"no-IndexError@{getattr(node,'lineno','?')}:fancy", node, "index")
+        st.assume(goal)
+
+    def fn(vars_):
+        return g.select([M.norm_index(x.select([vars_[0]]), g.dims[d])[0] for d, x in enumerate(idx)])
+
+    return M.grid_lambda([n], g.kind, fn, g.dtype)
 
 
 def symlist_slice(interp, st, lst: SymList, sl: slice, node):
